@@ -25,6 +25,8 @@ type Part struct {
 	Col  string
 	Expr string
 	Desc bool
+	// Bare: the DDL writes the expression as it is (a function call), not wrapped in parentheses.
+	Bare bool
 }
 
 type Idx struct {
@@ -247,6 +249,11 @@ var Features = []Feature{
 	{Name: "idx_expr", Apply: func(d *DB) {
 		t := d.Table("t")
 		t.Idx = append(t.Idx, Idx{Name: "idx_expr", Parts: []Part{{Expr: "id + 1"}}})
+	}},
+	// the usual spelling of an expression index: CREATE INDEX ... ON t (lower(b)).
+	{Name: "idx_expr_function_call_unwrapped", Apply: func(d *DB) {
+		t := d.Table("t")
+		t.Idx = append(t.Idx, Idx{Name: "idx_lower_b", Parts: []Part{{Expr: "lower(b)", Bare: true}}})
 	}},
 	{Name: "idx_expr_desc", Apply: func(d *DB) {
 		t := d.Table("t")
@@ -579,6 +586,9 @@ func (t *Table) DDL(spelling int) []string {
 			x := q(p.Col)
 			if p.Expr != "" {
 				x = "(" + p.Expr + ")"
+				if p.Bare {
+					x = p.Expr
+				}
 			}
 			if p.Desc {
 				x += " DESC"
